@@ -141,6 +141,19 @@ def run(prog, ctx):
                         res.violate("C03.K", "C03.K|%s" % f.id, "down-sample slot mask in %s uses %s, expected the destination lg_k" % (f.id, nm), f.id, site["span"])
                     else:
                         res.undecided += 1
+        # bulk overwrites of the destination registers (`self.bytes.copy_from_slice(first_block)`, `fill`, `clone_from_slice`): whatever
+        # the destination held is gone -- a merge routine may only raise registers
+        if f.argc >= 1 and f.local_ty(1).startswith("&mut"):
+            for b, site in f.calls():
+                nm = (site.get("callee") or "").rsplit("::", 1)[-1]
+                if nm not in ("copy_from_slice", "clone_from_slice", "fill", "swap_with_slice", "copy_within") or not site["args"]:
+                    continue
+                dst = s.operand(site["args"][0])
+                if sym.contains(dst, lambda t: t[0] == "field" and t[1][0] == "param" and t[1][1] == 1):
+                    n_x += 1
+                    res.obligations += 1
+                    res.violate("C03.X", "C03.X|%s|%s" % (f.id, nm), "%s overwrites the destination registers wholesale (`%s.%s(..)`): registers already in the "
+                                "gadget are lost instead of max-merged" % (f.id, show(dst)[:60], nm), f.id, site.get("span"))
         # direct stores `bytes[i] = max(bytes[i], val)` in Array8 merges
         for b, base, ie, e, span, _s in C.buffer_stores(prog, f, "bytes"):
             if f.item_name in ("set_register", "put"):
